@@ -452,7 +452,7 @@ def check_pair(ktype, enc, prefix):
 def keys_case(ck, tmp, stream, combo, via="lib"):
     import suit_generator.cmd_keys as m
     ktype, enc, pf, pubf, encr = combo
-    d = tempfile.mkdtemp(prefix="keys-", dir=tmp)
+    d = core.shared_dir(tmp, "shared-keys") if via == "lib" else tempfile.mkdtemp(prefix="keys-", dir=tmp)
     # the output prefix is a name like any other: every second one has dots in it (a rotated key, a board name)
     import zlib
     stem = "k" if zlib.crc32(repr(combo).encode()) % 2 else "k.nrf54h20.v2"
